@@ -122,18 +122,26 @@ def check_receive(ck: Check) -> None:
 
     # ---- P4: monotone guards
     bad4 = []
-    for t in summ.tests.values():
-        for c in flat([t]):
-            for d in (c[1] if c[0] == "or" else [c]):
-                if not mentions(d, blen):
-                    continue
-                if d[0] != "cmpz":
-                    bad4.append(show(d))
-                    continue
-                atoms, _k = lin_parts(d[2])
-                coef = atoms.get(blen)
-                if coef is None or not ((coef > 0 and d[1] == ">=") or (coef < 0 and d[1] == "<=")):
-                    bad4.append(show(d))
+
+    def monotone(d: Term) -> bool:
+        if d[0] != "cmpz":
+            return False
+        atoms, _k = lin_parts(d[2])
+        coef = atoms.get(blen)
+        return coef is not None and ((coef > 0 and d[1] == ">=") or (coef < 0 and d[1] == "<="))
+
+    # the conditions under which the parser acts (stores, calls): guard clauses count with the polarity under which execution continues
+    for e in evs:
+        if e.kind not in ("store", "call", "del"):
+            continue
+        for cj_ in e.pc:
+            for c in conjuncts(cj_.term):
+                if c[0] == "or" and cj_.prov != "branch":
+                    continue        # what survived a nested early exit: (taken and survived) or (not taken) - not an enabling test
+                for d in (c[1] if c[0] == "or" else [c]):
+                    for a in (conjuncts(d) if d[0] == "and" else [d]):
+                        if mentions(a, blen) and not monotone(a) and show(a) not in bad4:
+                            bad4.append(show(a))
     construct = "receive: the buffer length occurs in conditions only as the larger side of >= (enabling is monotone in more data)"
     if bad4:
         ck.violated("P4", construct, "non-monotone or strict length tests: %s — e.g. a frame ending exactly at a read boundary is delayed or a stage "
